@@ -97,8 +97,11 @@ def run_native(driver_c, sources_inc, incs, defs=(), args=(), asan=True, stdin=N
         cmd += ['-I' + i for i in incs] + ['-D' + d for d in defs] + list(extra_cflags) + ['-o', exe, src]
         p = subprocess.run(cmd, capture_output=True, text=True)
         if p.returncode: return None, 'COMPILE FAILED\n' + p.stderr[-3000:]
-        p = subprocess.run([exe] + [str(a) for a in args], capture_output=True, text=True, timeout=timeout, input=stdin,
-                           env=dict(os.environ, ASAN_OPTIONS='detect_leaks=0:abort_on_error=0'))
+        try:
+            p = subprocess.run([exe] + [str(a) for a in args], capture_output=True, text=True, timeout=timeout, input=stdin,
+                               env=dict(os.environ, ASAN_OPTIONS='detect_leaks=0:abort_on_error=0'))
+        except subprocess.TimeoutExpired:
+            return 124, 'TIMEOUT: the native run did not terminate within %d s' % timeout
         return p.returncode, p.stdout + p.stderr[-3000:]
     finally:
         shutil.rmtree(td, ignore_errors=True)
